@@ -198,6 +198,7 @@ package commonmark
 //@   ensures[error] isnil(result0) ==> (result1 != nil && result1 == p.err)
 //@   ensures[noerror] !isnil(result0) ==> result1 == nil
 //@   ensures[latch] old(p.err) != nil ==> p.err == old(p.err)
+//@   ensures[state] 0 <= p.i && p.i <= len(p.buf) && 1 <= p.lineno && 0 <= p.offset && (p.err == nil ==> p.r != nil)
 //@   ensures[start] !isnil(result0) ==> (result0.StartOffset == old(p.offset) + gOff && result0.StartLine == old(p.lineno) + gLines && gOff >= 0 && gLines >= 0)
 //@   ensures[order] !isnil(result0) ==> (result0.EndOffset >= result0.StartOffset && p.offset == result0.EndOffset)
 //@   loop 0: invariant[p] !isnil(p) && p.i == 0 && (p.err == nil ==> p.r != nil) && 0 <= gOff && 0 <= gLines
@@ -207,6 +208,7 @@ package commonmark
 //@   loop 0: invariant[linenorange] p.lineno >= 1
 //@   loop 1: invariant[p] !isnil(p) && 0 <= p.i && p.i <= len(p.buf) && (p.err == nil ==> p.r != nil) && !isnil(lp)
 //@   loop 1: invariant[latch] old(p.err) != nil ==> p.err == old(p.err)
+//@   loop 1: invariant[pos] 1 <= p.lineno && 0 <= p.offset
 //@   loop 1: invariant[acct] p.offset == old(p.offset) + gOff && p.lineno == old(p.lineno) + gLines && gOff >= 0 && gLines >= 0
 //@   unclaimed dec terminates when the reader reaches the end of the stream (needs a stream of finite length)
 //@   unclaimed pre@(*BlockParser).makeRoot the pending top-level blocks are non-nil and end inside the scanned part of the buffer (assumption A-C01-1, DESIGN 7.1)
